@@ -45,7 +45,7 @@ def is_hex(ch):
     return z3.Or(z3.And(z3.UGE(ch, ord('0')), z3.ULE(ch, ord('9'))), z3.And(z3.UGE(ch, ord('A')), z3.ULE(ch, ord('F'))))
 
 
-def run_req(cmds, delays, values=None, rec=None, iw=8, vw=16):
+def run_req(cmds, delays, values=None, rec=None, iw=8, vw=16, stop_when_consumed=None, keep=False):
     """cmds: list of (kind, ndigits) with kind in I,V,O,K (V = '<v>!').  Digits are symbolic
     (or taken from `values`).  delays: idle cycles before each character (cycled)."""
     with quiet():
@@ -106,6 +106,12 @@ def run_req(cmds, delays, values=None, rec=None, iw=8, vw=16):
             if pos < len(chars) and delays:
                 wait = delays[pos % len(delays)]
         trace.append({n: w[n].get() for n in OUTS})
+        if stop_when_consumed is not None and pos == len(chars):
+            stop_when_consumed -= 1
+            if stop_when_consumed < 0:
+                break
+    if keep:
+        run_req.last = {'dut': s.children['dut'], 'w': w}
     return trace, vars_, numbers, pos, len(chars)
 
 
@@ -360,6 +366,105 @@ def resp_task(p, cfg, rec):
             inputs=vars_, replay=replay, canary=tail_ready, timeout_s=(120 if p.tier == 'quick' else 900))
 
 
+def _vb(x):
+    return z3.BoolVal(x) if isinstance(x, bool) else core.as_z3_bool(x)
+
+
+def kdecode_task(p, cfg, rec):
+    """K<h..h>; with nd symbolic hex digits: when the terminator has been consumed the decoder sits in its burst state with the
+    burst counter equal to the transmitted number (exact integer, no mask) and no pulse given yet.  Together with kburst_task
+    (induction on the counter) this gives 'exactly n pulses' for every n the digits can express."""
+    nd, delays = cfg['nd'], cfg['delays']
+    cmds = [('K', nd)]
+    trace, vars_, numbers, pos, nchars = run_req(cmds, delays, rec=rec, stop_when_consumed=1, keep=True)
+    dut = run_req.last['dut']
+    p.assumptions = list(ctx.assumptions)
+    p.res['states'] += 1
+    p.res['transitions'] += len(trace)
+    p.structural('all %d characters are consumed within the horizon' % nchars, pos == nchars, detail={'consumed': pos})
+    want = core.mk(z3.ZeroExt(1, number_term(numbers[0], 4 * nd)), 0, (1 << (4 * nd)) - 1)
+
+    def replay(values):
+        tr, _, nums, ps, nch = run_req(cmds, delays, values=values, stop_when_consumed=1, keep=True)
+        d = run_req.last['dut']
+        n = number_conc(digits_of(values, 0, nd))
+        ok = d.state == 8 and d.temp == n and not any(st['clk_pulse'] for st in tr) and run_req.last['w']['ready'].get() == 0
+        return None if ok else {'command': render(cmds, values), 'state': d.state, 'burst counter': d.temp, 'expected': n,
+                                'pulses before the burst': sum(st['clk_pulse'] for st in tr)}
+    p.prove('K<%dh>; one edge after the terminator was consumed the decoder is in its burst state' % nd, _vb(dut.state != 8), inputs=vars_, replay=replay)
+    p.prove('K<%dh>; the burst counter equals the transmitted number when the burst starts' % nd, _vb(dut.temp != want), inputs=vars_, replay=replay,
+            canary=_vb(dut.temp != want + 1))
+    tot = 0
+    for st in trace:
+        tot = tot + st['clk_pulse']
+    p.prove('K<%dh>; no clock pulse before the burst starts' % nd, _vb(tot != 0), inputs=vars_, replay=replay)
+    p.prove('K<%dh>; ready is low when the burst starts (no character can be consumed during the burst)' % nd,
+            _vb(run_req.last['w']['ready'].get() != 0), inputs=vars_, replay=replay)
+
+
+def _burst_system(T, values=None, rec=None):
+    with quiet():
+        s = py4hw.HWSystem()
+        w = build_req(s)
+        if values is None:
+            symsim.instrument(s, rec)
+        sim = s.getSimulator()
+    dut = s.children['dut']
+    dut.state = 8
+    dut.temp = T
+    for n in OUTS + ['ready']:
+        w[n].value = 0
+    w['valid'].put(0)
+    w['c'].put(0)
+    return s, w, sim, dut
+
+
+def kburst_task(p, cfg, rec):
+    """induction on the burst counter: from the burst state (state 8, ready and clk_pulse low) with an ARBITRARY counter value T,
+    T == 0 ends the burst without a pulse; T > 0 gives one full pulse (high for one cycle, then low), comes back to the burst state
+    with T-1 and ready still low.  Hence a burst entered with counter n gives exactly n pulses, for every n < 2**bits."""
+    bits = cfg['bits']
+    T, tv = core.fresh('T', bits)
+    vars_ = {'T': tv}
+    s, w, sim, dut = _burst_system(T, rec=rec)
+    p.assumptions = list(ctx.assumptions)
+    snaps = []
+    for k in range(4):
+        with quiet():
+            sim.clk(1)
+        snaps.append({'state': dut.state, 'temp': dut.temp, 'clk_pulse': w['clk_pulse'].get(), 'ready': w['ready'].get(),
+                      'others': [w[n].get() for n in ('set_index_in', 'set_v_in', 'set_index_out', 'start_resp')]})
+    p.res['states'] += 1
+    p.res['transitions'] += 4
+
+    def replay(values):
+        t = values['T']
+        s2, w2, sim2, d2 = _burst_system(t, values=values)
+        obs = []
+        for k in range(4):
+            with quiet():
+                sim2.clk(1)
+            obs.append((d2.state, d2.temp, w2['clk_pulse'].get(), w2['ready'].get()))
+        if t == 0:
+            ok = obs[0][0] == 4 and all(o[2] == 0 for o in obs) and obs[0][3] == 0
+        else:
+            ok = obs[0] == (9, t - 1, 1, 0) and obs[1] == (8, t - 1, 0, 0)
+        return None if ok else {'burst counter': t, '(state, counter, clk_pulse, ready) after edges 1..4': obs}
+    nz = tv != 0
+    a, b = snaps[0], snaps[1]
+    AND, NOT = z3.And, z3.Not
+    p.prove('burst, counter > 0: first edge raises clk_pulse, decrements the counter, goes to the low phase, ready stays low',
+            AND(nz, z3.Or(_vb(a['clk_pulse'] != 1), _vb(a['state'] != 9), _vb(a['temp'] != T - 1), _vb(a['ready'] != 0))), inputs=vars_, replay=replay,
+            canary=AND(nz, _vb(a['temp'] != T)))
+    p.prove('burst, counter > 0: second edge lowers clk_pulse and returns to the burst state with counter - 1, ready still low',
+            AND(nz, z3.Or(_vb(b['clk_pulse'] != 0), _vb(b['state'] != 8), _vb(b['temp'] != T - 1), _vb(b['ready'] != 0))), inputs=vars_, replay=replay)
+    any_pulse = z3.Or([_vb(x['clk_pulse'] != 0) for x in snaps])
+    p.prove('burst, counter == 0: the burst ends (reset-temp state) and clk_pulse stays low for the following edges',
+            AND(NOT(nz), z3.Or(_vb(a['state'] != 4), any_pulse)), inputs=vars_, replay=replay)
+    other = z3.Or([_vb(v != 0) for x in snaps[:2] for v in x['others']])
+    p.prove('burst: no other action line moves during a pulse', AND(nz, other), inputs=vars_, replay=replay)
+
+
 def tasks_for(tier):
     quick = tier == 'quick'
     t = []
@@ -380,6 +485,12 @@ def tasks_for(tier):
         t.append(('CMDRequest K<1h>; n<=4 symbolic delays %s' % ','.join(map(str, dl)), kcount_task, {'nmax': 4, 'delays': list(dl)}))
     if not quick:
         t.append(('CMDRequest K<1h>; n<=9 symbolic delays 0', kcount_task, {'nmax': 9, 'delays': [0]}))
+    # K<n>; for every n: decode up to the start of the burst (symbolic digits) + induction on the burst counter
+    for nd in ((1, 2, 3, 4) if quick else (1, 2, 3, 4, 5, 6, 8)):
+        for dl in delay_sets[:2 if quick else 4]:
+            t.append(('CMDRequest K<%dh>; decode up to the burst, delays %s' % (nd, ','.join(map(str, dl))), kdecode_task, {'nd': nd, 'delays': list(dl)}))
+    for bits in ((16, 32) if quick else (4, 16, 32, 64)):
+        t.append(('CMDRequest clock burst: induction on a %d-bit burst counter' % bits, kburst_task, {'bits': bits}))
     for size in (1, 2, 3, 4):
         for vw in ((16,) if quick else (8, 16, 32)):
             hz = 8 + 4 * (size + 2) if quick else 14 + 5 * (size + 2)
